@@ -854,6 +854,11 @@ pub fn execute(scn: &Scenario, ctx: &mut Ctx) {
                     None => ctx.violate(Prop::C16, "many/fails-iff", || format!("parse_dtls_plaintext_records answered {} although the first {} record(s) parse", out.show(), loop_recs.len())),
                     Some((rem, hdrs)) => {
                         let want: Vec<(u8, u16, u16, u64, u16, Vec<PMsg>)> = loop_recs.iter().map(|p| (p.ctype, p.ver, p.epoch, p.seq, p.len, p.msgs.iter().map(|m| { let mut m = m.clone(); m.frag = None; m }).collect())).collect();
+                        if hdrs != want && off == bytes.len() {
+                            // C10: "several records in one datagram decode record by record" - a datagram made
+                            // of n decodable records and nothing else yields exactly those n records
+                            ctx.violate(Prop::C10, "dtls/several-records", || format!("a {}-byte datagram of {} decodable records: parse_dtls_plaintext_records returned {} record(s) (or their contents differ)", bytes.len(), want.len(), hdrs.len()));
+                        }
                         if hdrs != want {
                             ctx.violate(Prop::C16, "many/list", || format!("parse_dtls_plaintext_records returned {} record(s), the explicit loop {} (or their contents differ)", hdrs.len(), want.len()));
                         } else if !rel_is(rem, off, bytes.len() - off) {
